@@ -50,7 +50,9 @@ Inductive case :=
 | KFanIn (ins : list (list Z)) (outs : list Z) (closed : bool)          (* FanInRec / MergeChannel; a nil source is [] *)
 | KFanOut (async : bool) (ins : list Z) (outs : list (list Z)) (closed : list bool)
 | KReduce (nil_in : bool) (a : rfn) (ins : list Z) (result : Z) (calls : list (Z * Z))   (* reducer argument pairs *)
-| KOrderly (n : nat) (log : list (nat * bool)) (returned : bool).
+| KOrderly (n : nat) (log : list (nat * bool)) (returned : bool)
+(* the caller's argument slice (tasks, channels, values) compared element by element with a copy taken before the call *)
+| KUntouched (same : bool).
 
 Definition zz_eqb (x y : Z * Z) : bool := (fst x =? fst y) && (snd x =? snd y).
 Definition isnil {A} (l : list A) : bool := match l with [] => true | _ => false end.
@@ -68,6 +70,7 @@ Definition prop_ok (c : case) : bool :=
       (negb nil_in || isnil ins) && (result =? reduce_spec 0 (reduce_fn a) ins) &&
       list_eqb zz_eqb calls (reduce_calls (reduce_fn a) ins)
   | KOrderly n log returned => returned && orderly_rel_b n log returned
+  | KUntouched same => same
   end.
 
 (* without cancellation the output is the list function itself *)
@@ -96,6 +99,7 @@ Definition case_rel (c : case) : Prop :=
       (nil_in = true -> ins = []) /\ result = match ins with [] => 0 | x :: r => fold_left (reduce_fn a) r x end /\
       calls = reduce_calls (reduce_fn a) ins
   | KOrderly n log returned => returned = true /\ log = orderly_expected n
+  | KUntouched same => same = true
   end.
 
 Lemma Zeqb_ok : forall a b : Z, Z.eqb a b = true <-> a = b.
@@ -119,7 +123,7 @@ Qed.
 
 Theorem prop_ok_spec c : prop_ok c = true <-> case_rel c.
 Proof.
-  destruct c as [cb nil_in incap ins outs closed cancelled calls|ins outs closed|async ins outs closed|nil_in a ins result calls|n log returned];
+  destruct c as [cb nil_in incap ins outs closed cancelled calls|ins outs closed|async ins outs closed|nil_in a ins result calls|n log returned|same];
     cbn [prop_ok case_rel].
   - rewrite !andb_true_iff, (stage_rel_c_b_ok Z.eqb Zeqb_ok), (imp_b _ _ _ (isnil_ok ins)). tauto.
   - rewrite andb_true_iff, (fanin_rel_b_ok Z.eqb Zeqb_ok). unfold fanin_rel.
@@ -129,4 +133,5 @@ Proof.
   - rewrite andb_true_iff, orderly_rel_b_ok. unfold orderly_rel. split.
     + intros [-> [_ H]]. auto.
     + intros [-> ->]. split; [reflexivity|]. split; [exists []; now rewrite app_nil_r|reflexivity].
+  - tauto.
 Qed.
